@@ -464,7 +464,8 @@ def run_unit(name, tier="quick", keep=False, sanity=False):
         data = _parse_json(out)
         if rc not in (0, 10) or data is None:
             tail = (out[-400:] + err[-400:]).strip()
-            why = "out of memory (limit %s GB)" % u["mem_gb"] if ("bad_alloc" in tail or "emory" in tail or rc in (-6, -11, 134, 137, 139)) else "tool error"
+            oom = re.search(r"bad_alloc|out of memory|Cannot allocate", out[-20000:] + err[-20000:], re.I)
+            why = "out of memory (limit %s GB)" % u["mem_gb"] if (oom or rc in (-6, -11, 134, 137, 139)) else "tool error"
             res["undecided_reason"] = "cbmc rc %s: %s: %s" % (rc, why, tail[-500:])
             return res
         results, solver = None, 0.0
@@ -589,10 +590,9 @@ def _register():
         doc="reads input[0..64*blocks), key; writes exactly out[0..32); unbounded blocks (loop contract)")
     U["blake3_hash_many_portable"] = _u(
         "blake3_hash_many_portable", ["C07"], file=P, replace=["hash_one_portable"], unwind=17,
-        loops=[(P, "blake3_hash_many_portable", 0)],
-        bounded=["num_inputs <= 16 = MAX_SIMD_DEGREE by the contract's requires (row validity cannot be "
-                 "quantified; every caller in blake3.c is checked against the bound); unwind 17 only for the "
-                 "harness loop that allocates the rows; the function's own loop has a loop contract; blocks unbounded"],
+        bounded=["unwind 17: num_inputs <= 16 = MAX_SIMD_DEGREE by the contract's requires (row validity cannot "
+                 "be quantified; every caller in blake3.c is checked against this bound); unwinding assertions "
+                 "pass; blocks is unbounded"],
         doc="<= 16 rows of 64*blocks bytes; writes exactly out[0..32*num_inputs)")
 
     # ---- blake3_dispatch.c: full x86 dispatch, SIMD kernels = assumed frame contracts ---------
